@@ -86,6 +86,9 @@ func (x *execRun) probe(a app.App, ctx app.IOContext) (err error) {
 	if c.F == "app" {
 		ctx.Scope().AppendError(fmt.Errorf("probe %d failed (error appended to its scope)", id))
 	}
+	if c.F == "stop" {
+		ctx.Scope().Stop() // the command ends its scope (as "exit" or an interrupt does) and then fails
+	}
 	switch c.H {
 	case 1:
 		for k := 0; k < c.N; k++ {
@@ -96,7 +99,7 @@ func (x *execRun) probe(a app.App, ctx app.IOContext) (err error) {
 	}
 	x.log(id, false)
 	x.inside.Add(-1)
-	if c.F == "ret" {
+	if c.F == "ret" || c.F == "stop" {
 		return fmt.Errorf("probe %d failed (error returned)", id)
 	}
 	return nil
